@@ -927,28 +927,59 @@ namespace vh
     return micm::System(micm::SystemParameters{ .gas_phase_ = micm::Phase{ sp } });
   }
 
+  /// `byName`: the end-to-end user path -- tolerances are species properties ("absolute tolerance"; a negative input means
+  /// "no property"), the builder may reorder the state (`reorder`), concentrations are written and read through the
+  /// state's name map.  Otherwise: reordering off, species `s<i>` declared at position perm[i], direct index access.
   template<class BuilderT, class ParamsT>
-  std::string runSolve(const SolveInput& in, const ParamsT& params)
+  std::string runSolve(const SolveInput& in, const ParamsT& params, bool byName = false, bool reorder = false)
   {
+    auto sys = systemFor(in);
+    if (byName)
+    {
+      std::vector<micm::Species> sp(in.ns);
+      for (std::size_t i = 0; i < in.ns; ++i)
+      {
+        micm::Species s("s" + std::to_string(i));
+        if (in.atol[i] >= 0)
+          s.SetProperty<double>("absolute tolerance", in.atol[i]);
+        sp[in.perm[i]] = s;
+      }
+      sys = micm::System(micm::SystemParameters{ .gas_phase_ = micm::Phase{ sp } });
+    }
     auto solver = BuilderT(params)
-                      .SetSystem(systemFor(in))
+                      .SetSystem(sys)
                       .SetReactions(in.procs)
                       .SetNumberOfGridCells(in.ncell)
-                      .SetReorderState(false)
+                      .SetReorderState(byName && reorder)
                       .Build();
     auto state = solver.GetState();
     std::size_t nrx = in.procs.size();
+    std::vector<std::size_t> col(in.ns);
+    for (std::size_t s = 0; s < in.ns; ++s)
+      col[s] = byName ? state.variable_map_.at("s" + std::to_string(s)) : in.perm[s];
     for (std::size_t c = 0; c < in.ncell; ++c)
-    {
       for (std::size_t r = 0; r < nrx; ++r)
         state.rate_constants_[c][r] = in.k[c * nrx + r];
+    if (byName)
+    {
       for (std::size_t s = 0; s < in.ns; ++s)
-        state.variables_[c][in.perm[s]] = in.y[c * in.ns + s];
+      {
+        std::vector<double> conc(in.ncell);
+        for (std::size_t c = 0; c < in.ncell; ++c)
+          conc[c] = in.y[c * in.ns + s];
+        state.SetConcentration(micm::Species("s" + std::to_string(s)), conc);
+      }
     }
-    std::vector<double> atol(in.ns);
-    for (std::size_t s = 0; s < in.ns; ++s)
-      atol[in.perm[s]] = in.atol[s];
-    state.SetAbsoluteTolerances(atol);
+    else
+    {
+      for (std::size_t c = 0; c < in.ncell; ++c)
+        for (std::size_t s = 0; s < in.ns; ++s)
+          state.variables_[c][in.perm[s]] = in.y[c * in.ns + s];
+      std::vector<double> atol(in.ns);
+      for (std::size_t s = 0; s < in.ns; ++s)
+        atol[in.perm[s]] = in.atol[s];
+      state.SetAbsoluteTolerances(atol);
+    }
     state.SetRelativeTolerance(in.rtol);
     auto& rec = Recorder::get();
     rec.matrices.clear();
@@ -965,7 +996,16 @@ namespace vh
     o.key("y");
     for (std::size_t c = 0; c < in.ncell; ++c)
       for (std::size_t s = 0; s < in.ns; ++s)
-        o.d(state.variables_[c][in.perm[s]]);
+        o.d(state.variables_[c][col[s]]);
+    if (byName)
+    {
+      o.key("col");
+      for (std::size_t s = 0; s < in.ns; ++s)
+        o.n(col[s]);
+      o.key("atol");
+      for (std::size_t s = 0; s < in.ns; ++s)
+        o.d(state.absolute_tolerance_[col[s]]);
+    }
     o.key("trace");
     for (auto& m : rec.matrices)
     {
@@ -991,14 +1031,18 @@ namespace vh
   template<std::size_t L, bool CSC, std::size_t KIND>
   std::string SolveCfg<L, CSC, KIND>::solve(Tok& t, std::size_t integ)
   {
+    // integ >= 10: the by-name variant ("bsolve"), preceded by the reorder flag
+    bool byName = integ >= 10;
+    integ %= 10;
+    bool reorder = byName ? (t.nat() != 0) : false;
     SolveInput in = solveInput(t);
     if (integ == 0)
     {
       RecRosParams p(rosParams(t));
-      return runSolve<typename BuilderOf<RecRosParams, L, CSC, KIND>::type>(in, p);
+      return runSolve<typename BuilderOf<RecRosParams, L, CSC, KIND>::type>(in, p, byName, reorder);
     }
     auto p = beParams(t);
-    return runSolve<typename BuilderOf<micm::BackwardEulerSolverParameters, L, CSC, KIND>::type>(in, p);
+    return runSolve<typename BuilderOf<micm::BackwardEulerSolverParameters, L, CSC, KIND>::type>(in, p, byName, reorder);
   }
 
   // ---------------------------------------------------------------- state histories (C11 / C17 / C20)
